@@ -29,6 +29,7 @@ class Corpus:
         self.n_desc = n_desc
         self.extra_texts = list(extra_texts)
         self.harness = None
+        self.stratify = True
 
     def add_text(self, text, gen=None, origin="generated"):
         r = self.drv.ask({"op": "analyze", "text": text})
@@ -56,6 +57,9 @@ class Corpus:
     def generate(self):
         for t in self.extra_texts:
             self.add_text(t, origin="corpus")
+        if self.stratify:
+            for text, g in GD.stratified(self.rng, self.opts):
+                self.add_text(text, g, origin="stratified")
         tries = 0
         while len(self.descs) < self.n_desc + len(self.extra_texts) and tries < self.n_desc * 3:
             tries += 1
